@@ -7,7 +7,12 @@
    bytes of the caller's ContentHasher, arbitrary).
    Proofs: Proofs/AbsDestP.v, Proofs/ReceiveP.v.  Vocabulary: see Properties/C02.v.
 
-   Not here: the DiskWriter's own Filter (nil in the model); the order in which file contents
+   The receiver's Filter (ReceiveOpt.Filter, handed to the differ and to the DiskWriter) is the
+   parameter [wf] of [receive_abs_f] (theorems *_filtered below): the writer works on a copy of
+   the stat rewritten by the filter — that is what reaches the disk —, the notification and the
+   hashed header keep the stat AS SENT.  [filter_ok wf]: the filter never answers "skip" and keeps
+   path, type bits and link name.  All other theorems are the case "no filter".
+   Not here: the order in which file contents
    complete — the model emits the notification of a regular file at the position of its
    HandleChange call; [notify_order_independent] below shows that ANY order in which no
    notification precedes a notification for one of its ancestors rebuilds the same view (the
@@ -29,7 +34,7 @@
    [honesty_needed] below: without it the replayed view differs from the destination. *)
 From Coq Require Import List NArith Bool Sorting.Sorted.
 From FS Require Import Sx Model.Path Model.Stat Model.Diff Model.AbsDest
-  Proofs.DiffP Proofs.AbsDestP Proofs.ReceiveP Proofs.ReplayP Proofs.NotifyOrderP.
+  Proofs.DiffP Proofs.AbsDestP Proofs.ReceiveP Proofs.ReplayP Proofs.NotifyOrderP Proofs.FilterRecvP.
 From Coq Require Import Sorting.Permutation.
 Import ListNotations.
 Open Scope N_scope.
@@ -119,6 +124,53 @@ Theorem notify_digest : forall (H : bytes -> bytes) (hdr : stat -> bytes) d A B,
             dg = H (hdr st ++ (if wants_content st then de_bytes e else [])).
 Proof. exact notify_digest_proof. Qed.
 
+(* ---- with the receiver's Filter ----
+   As far as destination, requests and failure are concerned, a transfer through the filter is
+   the plain transfer of the source with every stat rewritten by the filter ([filter_entries]);
+   the writer executed exactly the rewritten changes of that transfer, and the notifications
+   are the images of the changes AS RECEIVED. *)
+Theorem filtered_transfer_reduces : forall wf, filter_ok wf ->
+  forall (H : bytes -> bytes) (hdr : stat -> bytes) d A B m,
+  wf_listing (map fst A) -> wf_listing (map fst B) ->
+  let r := receive_abs_f wf H hdr m d A B in
+  let r' := receive_abs H hdr m d A (filter_entries wf B) in
+  ds_map r = ds_map r' /\ ds_err r = ds_err r' /\ ds_reqs r = ds_reqs r' /\
+  map (restat wf) (ds_changes r) = ds_changes r' /\
+  ds_notifs r = map (notif_of (src_of B) H hdr) (ds_changes r) /\
+  (ds_err r = false ->
+   ds_changes r = diff (filter_stat wf) d (match m with Fresh => map fst A | Merge => [] end) (map fst B)).
+Proof. exact receive_abs_f_reduce. Qed.
+
+(* notify_exact with a filter: no failure; the notifications are exactly the images — with the
+   stat AS SENT and the digest of ITS header — of the changes of the specification for the
+   differ with that filter; no path twice.  [identity_faithful] speaks of the filtered source:
+   same identity key after the filter => same bytes. *)
+Theorem notify_exact_filtered : forall wf, filter_ok wf ->
+  forall (H : bytes -> bytes) (hdr : stat -> bytes) d A B,
+  wf_listing (map fst A) -> wf_listing (map fst B) -> links_ok B ->
+  identity_faithful d A (filter_entries wf B) ->
+  let r := receive_abs_f wf H hdr Fresh d A B in
+  ds_err r = false /\
+  ds_notifs r = map (notif_of (src_of B) H hdr) (diff (filter_stat wf) d (map fst A) (map fst B)) /\
+  (forall n, In n (ds_notifs r) <->
+     exists c, spec_change (filter_stat wf) d (map fst A) (map fst B) c /\ n = notif_of (src_of B) H hdr c) /\
+  NoDup (map notif_path (ds_notifs r)).
+Proof. exact notify_exact_f_proof. Qed.
+
+(* notify_digest with a filter: the digest announced is the hash of the header of the stat AS
+   SENT followed by the bytes the destination finally holds; the destination's own stat at that
+   path is the FILTERED one (identity key; for a hard link: that of the inode it joined). *)
+Theorem notify_digest_filtered : forall wf, filter_ok wf ->
+  forall (H : bytes -> bytes) (hdr : stat -> bytes) d A B,
+  wf_listing (map fst A) -> wf_listing (map fst B) -> links_ok B ->
+  identity_faithful d A (filter_entries wf B) ->
+  let r := receive_abs_f wf H hdr Fresh d A B in
+  forall k p st dg, In (k, p, Some (st, dg)) (ds_notifs r) ->
+  exists e, alookup p (ds_map r) = Some e /\
+            dg = H (hdr st ++ (if wants_content st then de_bytes e else [])) /\
+            (is_hardlink st = false -> same_file DMetadata (de_stat e) (filter_stat wf st) = true).
+Proof. exact notify_digest_f_proof. Qed.
+
 (* Order independence, general form: two lists of notifications that are permutations of each
    other, without duplicate paths, both "ancestors first" (no notification is followed by one
    for an ancestor of its path), rebuild the same view from any starting view. *)
@@ -145,6 +197,9 @@ Print Assumptions transfer_shows_source.
 Print Assumptions transfer_shows_source_weak.
 Print Assumptions notify_exact.
 Print Assumptions notify_digest.
+Print Assumptions filtered_transfer_reduces.
+Print Assumptions notify_exact_filtered.
+Print Assumptions notify_digest_filtered.
 
 (* ------------------------------------------------------------------ examples *)
 Definition mk (p : bytes) (mode uid gid size mtime : N) (ln : bytes) : stat :=
@@ -234,4 +289,24 @@ Example example_merge :
   /\ ds_reqs r = [p_ax; pb]
   /\ option_map de_bytes (alookup pc (ds_map r)) = Some [3;3;3]   (* c is kept *)
   /\ alookup p_by (ds_map r) = None.                              (* below the replaced directory *)
+Proof. vm_compute. repeat split; reflexivity. Qed.
+
+(* a umask-022 filter: the kept directory a/ (0700 -> 0777 at the source) is notified with the
+   stat AS SENT (0777) and the header of that stat, the destination holds 0755; the new file b
+   (0666 as sent) is stored 0644 and announced 0666 *)
+Example filter_ok_satisfiable : filter_ok umask22.
+Proof. exact umask22_ok. Qed.
+Definition exBf : list entry :=
+  [ (dir pa 511, []); (file p_ax 1, [1;1;1]); (mk pb 438 0 0 2 5 [], [8;8]) ].
+Example example_filtered :
+  let r := receive_abs_f umask22 Hx hx Fresh DMetadata exA exBf in
+  ds_notifs r = [ (KModify, pa, Some (dir pa 511, [97; 0]));
+                  (KAdd, pb, Some (mk pb 438 0 0 2 5 [], [98; 0; 8; 8]));
+                  (KDelete, pc, None) ]
+  /\ option_map (fun e => st_mode (de_stat e)) (alookup pa (ds_map r)) = Some (ModeDir + 493)
+  /\ option_map (fun e => st_mode (de_stat e)) (alookup pb (ds_map r)) = Some 420
+  /\ ds_reqs r = [pb]
+  /\ identity_faithful_b DMetadata exA (filter_entries umask22 exBf) = true
+  (* a second synchronisation through the same filter finds nothing to do *)
+  /\ ds_notifs (receive_abs_f umask22 Hx hx Fresh DMetadata (dest_listing exBf (ds_map r)) exBf) = [].
 Proof. vm_compute. repeat split; reflexivity. Qed.
